@@ -18,7 +18,7 @@ TIERS = {
     "C08": T(1200, 15000),
     "C09": T(1800, 20000),
     "C10": T(500, 6000, flavour="asanfn", flavours=["tsan"], extra="tsan",
-             tsan={"quick": {"cases": 40, "workers": 8, "size": 70}, "thorough": {"cases": 500, "workers": 16, "size": 100}}),
+             tsan={"quick": {"cases": 90, "workers": 8, "size": 70}, "thorough": {"cases": 500, "workers": 16, "size": 100}}),
     "C11": T(1500, 12000, global_lock_order=True),
     "C12": T(2500, 40000, extra="fuzz", fuzz={"quick": {"workers": 8, "runs": 5000}, "thorough": {"workers": 16, "runs": 400000}}),
     "C13": T(1200, 12000, extra="fuzz", fuzz={"quick": {"workers": 8, "runs": 3000}, "thorough": {"workers": 16, "runs": 200000}}),
